@@ -52,7 +52,7 @@ package types
 // Genesis validation: an accepted genesis file only lists feeds whose history size is within the bounds every other
 // entry point enforces (SetFeedValue relies on it).
 //@ func ValidateGenesis(data)
-//@   property C17
+//@   property C17, C12
 //@   returns err
 //@   invariant #1 idx: rangeindex >= 0 - 1 && rangeindex < len(data.Entries)
 //@   invariant #1 ok:  forall j:Int :: 0 <= j && j <= rangeindex ==> data.Entries[j].Feed.LatestHistory >= 1 && data.Entries[j].Feed.LatestHistory <= 100
